@@ -467,3 +467,44 @@ Definition cf_run (v : cf_variant) (r : cf_raw) (d : cf_disc) : Z :=
   else cf_code (cf_boot v (cf_resolve_all r) d).
 
 Definition cf_starts (v : cf_variant) (r : cf_raw) (d : cf_disc) : bool := (cf_run v r d =? 0)%Z.
+
+(** * The remaining settings of the redis section
+
+    pkg/config/redis.go: besides redis.address and redis.uri the [Redis] struct carries redis.username,
+    redis.password, redis.tls (flag default TRUE: [flag.Bool(RedisTLS, true, ...)]) and
+    redis.connection-idle-timeout (default 0). They come through the same channels (flag, WONDERWALL_ variable), their
+    typed members can be malformed like every other typed setting (flag.Parse: exit status 2; UnmarshalExact:
+    "decoding failed"), and NO check between process start and ListenAndServe looks at them: SSO.Validate and
+    session.NewStore test [len(Address) == 0 && len(URI) == 0] only; Redis.Client() uses them for a connection
+    that is made only when a store is configured (environment). Note that the struct built by config.Initialize
+    is never the Go zero value [Redis{}] unless redis.tls is switched off. *)
+Record cf_redis_rest := mk_cf_redis_rest {
+  cf_x_password : cf_ssrc; cf_x_username : cf_ssrc; cf_x_tls : cf_tsrc bool; cf_x_idle : cf_tsrc Z }.
+
+(* the Redis struct after viper.UnmarshalExact *)
+Record cf_redis_struct := mk_cf_redis_struct {
+  cf_rs_address : bytes; cf_rs_username : bytes; cf_rs_password : bytes; cf_rs_tls : bool; cf_rs_uri : bytes;
+  cf_rs_idle : Z }.
+
+Definition cf_redis_resolve (r : cf_raw) (x : cf_redis_rest) : cf_redis_struct :=
+  mk_cf_redis_struct (cf_resolve [] (cf_r_redisaddr r) None) (cf_resolve [] (cf_x_username x) None)
+    (cf_resolve [] (cf_x_password x) None) (cf_tresolve true (cf_x_tls x)) (cf_resolve [] (cf_r_redisuri r) None)
+    (cf_tresolve 0%Z (cf_x_idle x)).
+
+(* SSO.Validate / session.NewStore: len(cfg.Redis.Address) == 0 && len(cfg.Redis.URI) == 0 means "no store" *)
+Definition cf_redis_store_set (s : cf_redis_struct) : bool :=
+  negb (is_empty (cf_rs_address s)) || negb (is_empty (cf_rs_uri s)).
+
+(* [s != Redis{}]: what the code does NOT test *)
+Definition cf_redis_nonzero (s : cf_redis_struct) : bool :=
+  negb (is_empty (cf_rs_address s)) || negb (is_empty (cf_rs_username s)) || negb (is_empty (cf_rs_password s))
+  || cf_rs_tls s || negb (is_empty (cf_rs_uri s)) || negb (cf_rs_idle s =? 0)%Z.
+
+Definition cf_x_flag_bad (x : cf_redis_rest) : bool := cf_tflag_bad (cf_x_tls x) || cf_tflag_bad (cf_x_idle x).
+Definition cf_x_env_bad (x : cf_redis_rest) : bool := cf_twenv_bad (cf_x_tls x) || cf_twenv_bad (cf_x_idle x).
+
+(** outcome of starting the binary with the whole redis section supplied *)
+Definition cf_run_x (v : cf_variant) (r : cf_raw) (x : cf_redis_rest) (d : cf_disc) : Z :=
+  if cf_any_flag_bad r || cf_x_flag_bad x then Zpos cf_E_flag
+  else if cf_any_env_bad r || cf_x_env_bad x then Zpos cf_E_decode
+  else cf_code (cf_boot v (cf_resolve_all r) d).
